@@ -502,3 +502,71 @@ def _(c):
     c.ensures(lambda string, result: And_(result[1] >= 1, result[1] <= blen(string), result[0] >= 0), "range")
     c.ensures(lambda string, result: And_(at(string, result[1] - 1) < 128, _all_continuation(string, result[1] - 1), Not_(eq(at(string, 0), 0x80))), "consumes-one-canonical-subidentifier")
     c.ensures(lambda ex, string, result: (b128_facts(ex, string, result[1] - 1), eq(result[0], b128(string, result[1])))[1], "value-is-the-base-128-number")
+
+
+# ---- encode_number: the base-128 sub-identifier of X.690 8.19.2 in closed form ---------------------------------------------
+# Q128(n, k) = n // 128**k (the number left after dropping k base-128 digits).  A spec function given by its recurrence;
+# only ground instances of the two defining equations are ever supplied (q128_facts), as for b128 above.
+Q128 = _z3.Function("q128", _sym.I, _sym.I, _sym.I)
+
+
+def q128(n, k):
+    if isinstance(n, int) and isinstance(k, int):
+        return n // (128 ** k) if k >= 0 else n
+    return _SInt(Q128(_T(n), _T(k)))
+
+
+def q128_facts(ex, n, *ks):
+    if isinstance(n, int):
+        return
+    ex.pc.append(Q128(_T(n), 0) == _T(n))
+    for k in ks:
+        tk = _T(k)
+        ex.pc.append(_z3.Implies(tk >= 0, Q128(_T(n), tk + 1) == Q128(_T(n), tk) / 128))
+
+
+def is_subid(s, n):
+    """s is the X.690 sub-identifier of n >= 0: the base-128 digits of n, most significant first, as few as possible (at
+    least one), bit 8 set in every octet but the last"""
+    L = blen(s)
+    if isinstance(s, (bytes, bytearray)) and isinstance(n, int):
+        L = len(s)
+        return (L >= 1 and q128(n, L) == 0 and (L == 1 or q128(n, L - 1) > 0)
+                and all(s[i] == q128(n, L - 1 - i) % 128 + (128 if i < L - 1 else 0) for i in range(L)))
+    i = _z3.Int("subid!i")
+    tl, ts, tn = _T(L), _T(s), _T(n)
+    digits = _z3.ForAll([i], _z3.Implies(_z3.And(0 <= i, i < tl), _sym.AT(ts, i) == Q128(tn, tl - 1 - i) % 128 + _z3.If(i < tl - 1, 128, 0)),
+                        patterns=[_sym.AT(ts, i)], qid="subid_digits")
+    return _SBool(_z3.And(tl >= 1, Q128(tn, tl) == 0, _z3.Or(tl == 1, Q128(tn, tl - 1) > 0), digits))
+
+
+def _digits_inv(digits, n0, g):
+    from pyvc.sym import SIntList, llen
+    if not isinstance(digits, SIntList):
+        return all(digits[i] == q128(n0, len(digits) - 1 - i) % 128 + 128 for i in range(len(digits)))
+    i = _z3.Int("encnum!i")
+    return _SBool(_z3.ForAll([i], _z3.Implies(_z3.And(0 <= i, i < _T(g)), _sym.LAT(digits.t, i) == Q128(_T(n0), _T(g) - 1 - i) % 128 + 128),
+                             patterns=[_sym.LAT(digits.t, i)], qid="encnum_digits"))
+
+
+@contract("ecdsa.der.encode_number", props=["C11", "C09"], n=Int)
+def _(c):
+    from pyvc.sym import llen
+    c.theories = {"list"}
+    c.requires(lambda n: n >= 0)                     # a negative n never leaves the loop (n >> 7 stays -1): outside the codec's domain
+    c.returns(lambda ex: ex.fresh_bytes("subid"))
+
+    def inv(ex, n, b128_digits, old_n, _g):
+        q128_facts(ex, old_n, _g, _g - 1, 0)
+        return And_(_g >= 0, n >= 0, eq(llen(b128_digits), _g), eq(n, q128(old_n, _g)), Or_(eq(_g, 0), q128(old_n, _g - 1) > 0),
+                    _digits_inv(b128_digits, old_n, _g))
+    c.loop(0, invariant=[inv], decreases=lambda n: n, ghost={"_g": (lambda: 0, lambda _g: _g + 1)})
+    c.ensures(lambda ex, n, result: (q128_facts(ex, n, 0, blen(result), blen(result) - 1), is_subid(result, n))[1], "is-the-X.690-subidentifier")
+
+
+def _num_domain(tier, seed):
+    for v in list(range(0, 20000 if tier == "thorough" else 3000)) + [2 ** (7 * k) + d for k in range(1, 12) for d in (-1, 0, 1)] + [2 ** 64, 2 ** 70 + 12345, 10 ** 30]:
+        yield dict(n=v)
+
+
+_R["ecdsa.der.encode_number"].domain = _num_domain
